@@ -1227,7 +1227,29 @@ func GenerateWrappers(pkg *packages.Package, cs *ContractSet) (string, []string)
 				g.n++
 				cl.Wrapper = strings.ReplaceAll(fmt.Sprintf("vc_invoke_%s_%s_%d", sanitize(strings.ReplaceAll(c.Key, ".", "_")), sanitize(cl.Label), g.n), ".", "_")
 				cl.RetType = "bool"
-				fmt.Fprintf(&g.buf, "// %s: assumed of calls to %s [%s]\nfunc %s(%s) bool { return %s }\n\n", c.Key, k, cl.Label, cl.Wrapper, strings.Join(pl, ", "), rewriteImplies(cl.Text))
+				text := rewriteImplies(cl.Text)
+				final := text
+				if expr, perr := parser.ParseExpr(text); perr == nil {
+					var oldNodes []*ast.CallExpr
+					ast.Inspect(expr, func(n ast.Node) bool {
+						if ce, ok := n.(*ast.CallExpr); ok {
+							if id, ok := ce.Fun.(*ast.Ident); ok && id.Name == "old" && len(ce.Args) == 1 {
+								oldNodes = append(oldNodes, ce)
+							}
+						}
+						return true
+					})
+					if len(oldNodes) > 0 {
+						// old(e): the state just before the call
+						f2, oerr := g.expandOld(expr, oldNodes, pl, "bool", g.contractFilePos())
+						if oerr != nil {
+							g.errs = append(g.errs, fmt.Sprintf("%s:%d: clause [%s]: %v", cl.File, cl.Line, cl.Label, oerr))
+							continue
+						}
+						final = f2
+					}
+				}
+				fmt.Fprintf(&g.buf, "// %s: assumed of calls to %s [%s]\nfunc %s(%s) bool { return %s }\n\n", c.Key, k, cl.Label, cl.Wrapper, strings.Join(pl, ", "), final)
 			}
 		}
 		var ikeys []string
